@@ -173,6 +173,34 @@ def p4_trigger(check: Check, rule: str = "P4") -> None:
     check.require(once, rule, "Rule.trigger/once", "the consequent is modified once per trigger", loc(fn, n))
 
 
+def p4_who_modifies(check: Check, rule: str = "P4") -> None:
+    """Who-may-call: a consequent is modified only by Rule.trigger, where the rule's `enabled` flag is honoured; any other caller
+    of `<rule>.consequent.modify(...)` must itself be guarded by that rule's `enabled`."""
+    from .common import holds_at
+
+    p = check.program
+    sites = 0
+    for f in p.functions.values():
+        if "/examples/" in f.file or not any(isinstance(x, ast.Attribute) and x.attr == "modify" for x in ast.walk(f.analysis_node)):
+            continue
+        r = Resolver(p, f)
+        for n, c in r.cfg.find_calls(".modify"):
+            recv = r.term(c.func.value, n)  # type: ignore[union-attr]
+            if not (recv[0] == "attr" and recv[2] == "consequent"):
+                continue
+            sites += 1
+            if f.qualname == "Rule.trigger":
+                continue
+            check.analysed(f)
+            guarded = holds_at(r, n, ("attr", recv[1], "enabled"))
+            check.require(guarded, rule, f"{f.qualname}/modifies-consequent",
+                          "the consequent is modified under the rule's own `enabled` flag" if guarded else
+                          f"`{unparse(c)[:60]}` modifies a rule's consequent without going through Rule.trigger and without testing the rule's "
+                          "`enabled` flag: a disabled rule contributes to the fuzzy outputs", loc(f, n))
+    check.ok(rule, "package/who-modifies-consequents", f"{sites} call site(s) of <rule>.consequent.modify in the package; only Rule.trigger (or a caller "
+             "guarded by the rule's enabled flag) may modify a consequent")
+
+
 # --------------------------------------------------------------------------------------------- P5 / L1 / H1(modify)
 def modify_rules(check: Check, p5: bool = True, l1: bool = True, h1: bool = True) -> None:
     p = check.program
